@@ -37,6 +37,17 @@ Theorem C12_mediated : forall b r, In b Gen.builtins -> In r Gen.real ->
   ~ Reach (cut_graph Gen.calls Gen.cuts) [b] r.
 Proof. exact (mediated_sound Gen.calls Gen.cuts Gen.builtins Gen.real gen_mediated). Qed.
 
+(* The same for risor's own VirtualOS, an OS a host may supply: none of its methods reaches the real operating system
+   (os, os/user, ... functions, os.Stdin/Stdout/Stderr/Args) along static calls - what it serves comes from its own
+   configuration and from the filesystems mounted into it. *)
+Lemma gen_virtual : mediated_check Gen.calls Gen.cuts Gen.virtual_os Gen.real = true.
+Proof. vm_cast_no_check (eq_refl true). Qed.
+Theorem C12_virtual_os_self_contained : forall b r, In b Gen.virtual_os -> In r Gen.real ->
+  ~ Reach (cut_graph Gen.calls Gen.cuts) [b] r.
+Proof. exact (mediated_sound Gen.calls Gen.cuts Gen.virtual_os Gen.real gen_virtual). Qed.
+Example C12_virtual_os_nonempty : Nat.leb 30 (length Gen.virtual_os) = true.
+Proof. vm_compute. reflexivity. Qed.
+
 (* The closure used above is exact for every graph. *)
 Theorem C12_reach_complete : forall fuel (g : graph) roots s,
   reachable_set fuel g roots = Some s -> forall n, Reach g roots n <-> PS.In n s.
